@@ -331,6 +331,10 @@ def cmp_c03_code(acc, V, src, fileid, crec, co, opc, insts):
                 def txt(c):
                     return c[1] if c[0] == "u" else bytes.fromhex(c[1]).decode("ascii", "replace")
                 key = "C03|%s|COMPARE_OP|name:%s->%s" % (src, txt(tav), txt(oav))
+            elif op in opc.FREE_OPS and V >= (3, 11) and tav[0] == "u" and tav[1] in tuple(getattr(co, "co_varnames", ())) \
+                    and tav[1] in tuple(getattr(co, "co_freevars", ())):
+                # structural marker: a free variable that has the same name as a local of the same code object
+                key = "C03|%s|%s|free-variable-shares-name-with-a-local" % (src, name)
             else:
                 ka, kb = C.kind_of(tav), C.kind_of(oav)
                 cls = "arg>255" if (arg or 0) > 255 else "arg<=255"
@@ -1832,6 +1836,23 @@ def cmd_listings(args):
             if unparsed:
                 acc.mismatch("C12|%s|unparseable-line|v%s" % (fmt, vs(V)), file=label, line=unparsed[0][:160], n=len(unparsed))
                 continue
+            # every "to N" operand must point at a row carrying the '>>' mark (or at the end of a code object)
+            marked = set(r["off"] for r in rows if r["jt"])
+            ends = set()
+            prev = None
+            for r in rows:
+                if prev is not None and r["off"] < prev:
+                    ends.add(prev_end)
+                prev = r["off"]
+                prev_end = r["off"] + (2 if V >= (3, 6) else (3 if r["operand"] != "" else 1))
+            if rows:
+                ends.add(prev_end)
+            for r in rows:
+                m = _re.match(r"^\(to (\d+)\)$", r["operand"])
+                if m and int(m.group(1)) not in marked and int(m.group(1)) not in ends:
+                    acc.mismatch("C12|%s|jump-operand-points-at-unmarked-row|%s|v%s" % (fmt, r["op"], vs(V)), file=label,
+                                 offset=r["off"], operand=r["operand"])
+                    break
             rows = [r for r in rows if r["op"] != "CACHE"]
             exp = [i for i in stream if i.opname != "CACHE"]
             acc.count("c12_listing_rows_checked", len(rows))
@@ -2663,6 +2684,18 @@ def state_digest():
     for k in ("hasconst", "hasname", "opmap", "opname", "EXTENDED_ARG", "HAVE_ARGUMENT", "python_version_tuple"):
         out["std._std_api." + k] = sha(dump(getattr(api, k)))
     out["std._std_api.opc"] = api.opc.__name__
+    # class-level dispatch tables of the marshal re-implementation (read by every later dumps / loads)
+    import xdis.marsh as XM
+    import xdis.unmarshal as UM
+
+    def fn_names(d):
+        return sha(dump(dict((str(k), getattr(v, "__qualname__", getattr(v, "__name__", repr(type(v))))) for k, v in d.items())))
+
+    out["marsh._Marshaller.dispatch"] = fn_names(XM._Marshaller.dispatch)
+    out["marsh._Unmarshaller.dispatch"] = fn_names(XM._Unmarshaller.dispatch)
+    out["marsh._FastUnmarshaller.dispatch"] = fn_names(XM._FastUnmarshaller.dispatch)
+    out["marsh._load_dispatch"] = fn_names(XM._load_dispatch)
+    out["unmarshal.UNMARSHAL_DISPATCH_TABLE"] = sha(dump(UM.UNMARSHAL_DISPATCH_TABLE))
     return out
 
 
@@ -2688,7 +2721,10 @@ def run_op(op):
             elif kind == "get_opcode":
                 res = json.dumps(table_dump(get_opcode(tuple(op["version"]), op.get("pypy", False))), sort_keys=True)
             elif kind == "get_opcode_module":
-                res = json.dumps(table_dump(get_opcode_module(tuple(op["version"]))), sort_keys=True)
+                if op.get("variant"):
+                    res = json.dumps(table_dump(get_opcode_module(tuple(op["version"]), op["variant"])), sort_keys=True)
+                else:
+                    res = json.dumps(table_dump(get_opcode_module(tuple(op["version"]))), sort_keys=True)
             elif kind == "make_std_api":
                 api = make_std_api(tuple(op["version"]), op.get("variant")) if op.get("variant") else make_std_api(tuple(op["version"]))
                 res = json.dumps([sorted(api.opmap.items()), list(api.opname), sorted(api.hasconst), sorted(api.hasname),
@@ -2704,8 +2740,20 @@ def run_op(op):
                 from vf.gen import values as GV
 
                 v = GV.value(random.Random(op["vseed"]))
-                b = xm.dumps(v)
-                res = C.hexs(b) + " " + json.dumps(C.nan_norm(C.canon(xm.loads(__import__("marshal").dumps(v, 0)), HOSTV, "full")))
+                if op.get("target"):
+                    # marshal for another target version (what write_bytecode_file does)
+                    try:
+                        b = xm.dumps(v, python_version=tuple(op["target"]))
+                        # order-insensitive digest: the iteration order of a set holding NaN objects depends on their
+                        # identity (hash(nan) is id-based from 3.10), which is Python's business, not xdis state
+                        res = "target:%d:%s" % (len(b), sha(bytes(sorted(b))) if isinstance(b, (bytes, bytearray)) else repr(b))
+                    except Exception as e:
+                        res = "target-raises:" + type(e).__name__
+                else:
+                    b = xm.dumps(v)
+                    mm = __import__("marshal")
+                    res = json.dumps(C.nan_norm(C.canon(mm.loads(b), HOSTV, "full"))) + " " + \
+                        json.dumps(C.nan_norm(C.canon(xm.loads(mm.dumps(v, 0)), HOSTV, "full")))
             else:
                 res = "unknown-op"
         except BaseException as e:
